@@ -30,7 +30,7 @@ ASSUMPTIONS = [
     "robust target: judged on feasibility and value == -c.x only (what 'best' means there is C17's subject)",
     "ortools interface not exercised (package absent)",
 ]
-REQUIRED_PROBES = ["zero_row_class", "second_call_same_object", "split_mip_soft", "bool_with_duplicate_mapping_rows", "bool_with_bounds_not_01", "nonoptimal_on_last_partial_interval",
+REQUIRED_PROBES = ["edited_in_place_between_calls", "zero_row_class", "second_call_same_object", "split_mip_soft", "bool_with_duplicate_mapping_rows", "bool_with_bounds_not_01", "nonoptimal_on_last_partial_interval",
                    "true_infeasible_reported", "robust_with_binding_sample", "all_four_row_classes", "empty_A",
                    "soft_problem", "mip_to_lp_solver", "request_probe_infeasible_point"]
 SHRINK_KEYS = []
@@ -241,8 +241,12 @@ def gen_plan(rng, run_index, tier, opts):
     if rng.random() < 0.25:
         pre = []
         for _ in range(rng.choice([1, 1, 2])):
-            pre.append({"soft": bool(mip and rng.random() < 0.6),
-                        "solver": rng.choice(MIP_SOLVERS if mip else LP_SOLVERS), "target": "value", "faults": []})
+            pc = {"soft": bool(mip and rng.random() < 0.6),
+                  "solver": rng.choice(MIP_SOLVERS if mip else LP_SOLVERS), "target": "value", "faults": []}
+            if rng.random() < 0.45:
+                pc["edit_after"] = {"what": rng.choice(["b", "b_tight", "b_tight", "c", "u"]), "idx": rng.randrange(64),
+                                    "frac": rng.choice([0.1, 0.5, 1.0])}
+            pre.append(pc)
         plan["pre_calls"] = pre
     # response faults: one entry per solve call
     faults = []
@@ -536,6 +540,16 @@ class Conversation:
         if isinstance(res, str) or res is None:
             self.events.append((tag, "fail:%s" % res))
             eao_opts = bool(rec and rec.get("eao_options"))
+            peer_raised = status == "raised"      # real or injected exception of the peer: it claimed nothing at all
+            if res == "not successful" and peer_raised and fault in (None, "raise"):
+                # an exception of the peer turned into "no solution exists"
+                self.stats["failures_checked"] += 1
+                st, val, _w = reference(op, bools)
+                self.stats["ref_solves"] += 1
+                if st == "optimal":
+                    self.viol("failure-reported-but-feasible", "the peer raised %s (it made no claim), optimize() reports '%s', but the problem has a feasible point "
+                              "(verified witness, value %r)" % (rec.get("raised", "an exception"), res, val), "peer-raised")
+                return None
             if fault is None and res == "not successful" and (status in ("infeasible",) or (eao_opts and status not in (None, "raised"))):
                 self.stats["failures_checked"] += 1
                 st, val, _w = reference(op, bools)
@@ -708,7 +722,35 @@ class Conversation:
                 outcome = self.one_call(op, ref_ops, ref_joint_len, split, call, ci)
                 if self.violation is not None:
                     break
+                ed = call.get("edit_after")
+                if ed and not split:
+                    # the caller edits the problem IN PLACE between two calls (tighten a right-hand side, move a bound,
+                    # change a cost): the next call must solve the problem as it is now
+                    self.apply_edit(op, ed)
+                    self.apply_edit(ref_ops[0], ed)
+                    self.probes["edited_in_place_between_calls"] = self.probes.get("edited_in_place_between_calls", 0) + 1
         return self.result(outcome)
+
+    @staticmethod
+    def apply_edit(o, ed):
+        k, f = ed["idx"], ed["frac"]
+        if ed["what"] == "b" and o.b is not None and len(o.b):
+            i = k % len(o.b)
+            t = str(o.cType)[i]
+            step = (1.0 + abs(o.b[i])) * f
+            o.b[i] = o.b[i] + (step if t in ("U",) else -step if t == "L" else 0.0)   # loosen U / L rows, keep equalities
+        elif ed["what"] == "b_tight" and o.b is not None and len(o.b):
+            i = k % len(o.b)
+            t = str(o.cType)[i]
+            step = (1.0 + abs(o.b[i])) * f
+            o.b[i] = o.b[i] - (step if t == "U" else -step if t == "L" else 0.0)
+        elif ed["what"] == "c":
+            i = k % len(o.c)
+            if np.asarray(o.c).dtype.kind == "f":
+                o.c[i] = -o.c[i] * (1 + f) - 0.5
+        elif ed["what"] == "u":
+            i = k % len(o.u)
+            o.u[i] = o.u[i] + (1.0 + abs(o.u[i])) * f
 
     def one_call(self, op, ops, joint_len, split, call, ci):
         plan = self.plan
